@@ -95,6 +95,9 @@ var c18LongName = strings.Repeat("N", 255)
 
 func (x *c18World) apply(op string) bool {
 	p := opSplit(op)
+	for i := range p { // L255 stands for a name of 255 bytes (the longest a path item can carry), also inside paths
+		p[i] = strings.ReplaceAll(p[i], "L255", c18LongName)
+	}
 	var path []string
 	if len(p) > 1 {
 		path = splitPath(p[1])
@@ -483,11 +486,11 @@ func c18Exec(hist []string) (res explore.SeqResult) {
 	return res
 }
 
-var c18Late = map[string]bool{"post:C1:mac": true, "cat::Caf%8E": true, "replygone:C1:1": true}
+var c18Late = map[string]bool{"post:C1:mac": true, "cat::Caf%8E": true, "replygone:C1:1": true, "cat::L255": true, "post:L255:small": true, "cat:B1:L255": true, "post:B1/L255:small": true}
 
 func c18Alphabet() []string {
 	return []string{
-		"bundle::B2", "bundle:B1:B3", "cat::C3", "cat:B1:C2", "cat::<<", "bundle:B1:<<", "post:C1:tabnl", "post:C1:leadnl", "post:<<:small", "post:C1:mac", "cat::Caf%8E", "replygone:C1:1",
+		"bundle::B2", "bundle:B1:B3", "cat::C3", "cat:B1:C2", "cat::<<", "bundle:B1:<<", "post:C1:tabnl", "post:C1:leadnl", "post:<<:small", "post:C1:mac", "cat::Caf%8E", "replygone:C1:1", "cat::L255", "post:L255:small", "cat:B1:L255", "post:B1/L255:small",
 		"post:C1:small", "post:C1:empty", "post:C1:long", "post:C1:big", "post:B1/C2:small", "post:B1/C2:long",
 		"reply:C1:1", "reply:C1:2", "reply:B1/C2:1",
 		"delart:C1:1", "delart:C1:2", "delart:C1:3", "delart:B1/C2:1",
